@@ -28,3 +28,38 @@ package apk
 //@ func unmarshalR
 //@   property C11
 //@   nopanic implicit
+//@
+//@ macro hasherOK(h *merkleHasher) bool = len(h.buf) == 1048576 && 0 <= h.n && h.n < 1048576 && len(h.hashes) == len(h.blocks)
+//@
+//@ func (*merkleHasher).block
+//@   property C09
+//@   requires len(h.hashes) == len(h.blocks)
+//@   modifies h.count, mem(h.blocks)
+//@
+//@ func (*merkleHasher).flush
+//@   property C09
+//@   requires hasherOK(h)
+//@   ensures @buffer_emptied h.n == 0 && hasherOK(h)
+//@   before call (*merkleHasher).block(_, b): assert @final_short_block_is_the_buffered_tail len(b) == old(h.n) && len(b) > 0 && samearr(b, h.buf)
+//@   modifies h.n, h.count, mem(h.blocks)
+//@
+//@ func (*merkleHasher).Write
+//@   property C09
+//@   ghost total int
+//@   ghost S intmap
+//@   ghost S2 intmap
+//@   ghost emitted int = total - h.n
+//@   requires hasherOK(h) && !samearr(d, h.buf) && total >= h.n && (total - h.n) % 1048576 == 0 && len(d) <= 4611686018427387904
+//@   requires @buffer_holds_the_unemitted_tail_of_the_stream forall(i, 0, h.n, h.buf[i] == mapat(S, total - h.n + i))
+//@   requires @stream_extended_by_this_write forall(i, 0, total, mapat(S2, i) == mapat(S, i)) && forall(i, 0, len(d), mapat(S2, total + i) == d[i])
+//@   before call (*merkleHasher).block(_, b): assert @blocks_are_whole_and_aligned len(b) == 1048576 && emitted % 1048576 == 0
+//@   before call (*merkleHasher).block(_, b): assert @block_content_is_the_stream_slice forall(i, 0, 1048576, b[i] == mapat(S2, emitted + i))
+//@   on call (*merkleHasher).block(_, b) ret (): emitted = emitted + len(b)
+//@   loop 0 sig "for len(d) >= merkleBlock" invariant hasherOK(h) && emitted % 1048576 == 0 && samearr(d, old(d)) && len(d) >= 0 && \
+//@        emitted + h.n + len(d) == total + old(len(d)) && !samearr(d, h.buf) && (len(d) >= 1048576 ==> h.n == 0) && (h.n == 0 || h.n + len(d) < 1048576) && samearr(h.buf, old(h.buf))
+//@   loop 0 invariant @rest_of_d_is_the_rest_of_the_stream forall(i, 0, len(d), d[i] == mapat(S2, emitted + h.n + i))
+//@   loop 0 invariant @buffer_still_holds_its_tail forall(i, 0, h.n, h.buf[i] == mapat(S2, emitted + i))
+//@   ensures @all_bytes_accounted_for ret0 == len(d) && ret1 == nil && emitted + h.n == total + len(d)
+//@   ensures @invariant_restored hasherOK(h) && emitted % 1048576 == 0
+//@   ensures @buffer_holds_the_unemitted_tail_afterwards forall(i, 0, h.n, h.buf[i] == mapat(S2, emitted + i))
+//@   modifies h.n, h.count, mem(h.blocks), mem(h.buf)
